@@ -41,6 +41,16 @@ declare -A CHECKS=(
  [R3-C12B-join-restart-position-zero-sentinel]="C12 C05"
  [R3-C15A-getblockid-interns-into-token-table]="C15 C08"
  [R3-C19B-getblockid-fast-path-misses-strings-in-sets-concurrent]="C19 C08"
+ [R4-C01A-unmarshal-refuses-dates-before-1970]="C01 C07"
+ [R4-C03A-intersect-filters-in-place-across-block-worlds]="C03 C06"
+ [R4-C05B-advance-indexes-single-decrement]="C05 C12"
+ [R4-C08B-serialize-memo-copied-by-seal]="C08 C09"
+ [R4-C09A-sealed-last-block-signature-skipped]="C09 C01"
+ [R4-C10A-set-equal-indexes-empty-sets]="C10 C06"
+ [R4-C10B-run-presizes-by-remaining-fact-budget]="C10 C11"
+ [R4-C12B-advance-indexes-without-carry-loop]="C12 C05"
+ [R4-C13A-evaluation-stack-free-list-dirty]="C13 C06"
+ [R4-C17A-serialize-memo-copied-by-append]="C17 C08"
 )
 out=${OUT:-seeded/MATRIX.md}
 { echo "# Seeded changes x checks (quick tier, VERIF_SEED=${VERIF_SEED:-1}, /repo $(git -C /repo rev-parse --short HEAD))"; echo
